@@ -355,7 +355,7 @@ def _symval(a):
 class HarnessDef:
     def __init__(self, name, fn, cases_quick, cases_thorough=None, max_paths=200,
                  timeout_s=60, timeout_s_thorough=None, axioms=(), encodes=(), doc="",
-                 random_validation=3, finding_tags=None, concrete_alarms=True):
+                 random_validation=3, finding_tags=None, concrete_alarms=True, feas_timeout_ms=1500):
         self.name = name
         self.fn = fn
         self.cases_quick = cases_quick
@@ -373,6 +373,7 @@ class HarnessDef:
         # random concrete run uses the real scipy, whose approximate / degenerate answers are
         # outside the contract the solver reasons under.
         self.concrete_alarms = concrete_alarms
+        self.feas_timeout_ms = feas_timeout_ms
 
 
 def _run_mode(hdef, case, mode, values=None, seed=0, use_defaults=True):
@@ -455,6 +456,8 @@ def run_job(hdef, case, tier="quick", seed=0, replay_budget=6):
 
     def setup(e):
         e.axiom_hooks = list(hdef.axioms)
+        e.full_timeout_ms = hdef.feas_timeout_ms
+        e.full_rlimit = int(hdef.feas_timeout_ms * 2000)
 
     try:
         results, info = explore(body, max_paths=hdef.max_paths,
